@@ -3,6 +3,7 @@ import re
 
 import absint
 import align
+import survive
 import c19
 import ir
 from report import Finding
@@ -171,4 +172,31 @@ def total_length_rule(chk, rule, mods, name_re):
             chk.obligation(rule, bad is None and unk is None, key=(src, F.name), sample={"unit": src, "function": F.name, "paths": npaths})
             if bad:
                 chk.finding(Finding(rule, src, F.name, "total_length", "%s: the stream length (which finalize uses for the padding and for the size of the carried partial block) no longer equals the bytes consumed" % bad[1], loc=bad[0].loc()))
+    return n
+
+
+def length_store_survives(chk, rule, lib, mods):
+    """Every IR store of the bit length into a padding buffer has a machine store on its source line in the real
+    (-O2) object: the optimiser has not deleted it (lib/survive.py)."""
+    n = 0
+    for src, M in sorted(mods.items()):
+        o = lib.by_name.get(src.split("/")[-1].replace(".c", ".o"))
+        if o is None:
+            continue
+        for F in M.defined():
+            for (S, lines, kind) in survive.length_sinks(M, F):
+                srcf = S.file or F.file or src
+                hits, non = survive.machine_stores_on_lines(o, srcf, lines)
+                n += 1
+                how = "line table"
+                if not hits:
+                    decided, found, detail = survive.tainted_store_exists(lib, o, F, S, lambda t, c=None: c19.summary_of(lib, t, c))
+                    if decided and found:
+                        hits = [detail]
+                        how = "value flow: " + detail
+                chk.obligation(rule, bool(hits), key=(src, F.name, S.line), sample={"unit": src, "function": F.name, "line": S.line, "destination": kind, "machine_stores": len(hits), "decided_by": how})
+                if not hits:
+                    chk.finding(Finding(rule, o.name, F.name, "length-store-deleted:%s" % srcf.split("/")[-1],
+                                        "the source stores the message bit length into the %s here, but the object built with the real flags has no instruction on this line that writes memory (%d instruction(s) on the line): the optimiser deleted the store (a uint64_t written into a byte buffer that is read back as 32-bit words is undefined behaviour), so the padding carries a zero length and the hash is not the standard one" % (kind, non),
+                                        loc="%s:%s" % (srcf, S.line)))
     return n
